@@ -344,6 +344,32 @@ func (ex *Exec) registerLockStubs() {
 		id := st.alloc(rt, &StructV{[]Value{data}}, "mmap:"+name)
 		return ret1(st, TupleV{Ptr{obj: id}, IfaceV{}})
 	}
+	I["(*os.File).ReadAt"] = func(ex *Exec, st *State, _ *ssa.CallCommon, a []Value) []Outcome {
+		fp := a[0].(Ptr)
+		buf := a[1].(SliceV)
+		off := a[2].(*Term)
+		name, ok := st.fileName[fp.obj]
+		if !ok {
+			unsup("ReadAt on a file the stub did not open")
+		}
+		f, _ := ex.fileOf(st, name)
+		remaining := tt.Sub(f.length, off)
+		n := tt.Ite(tt.Slt(buf.len, remaining), buf.len, tt.Ite(tt.Slt(remaining, tt.BV(0, 64)), tt.BV(0, 64), remaining))
+		if buf.obj != 0 {
+			src := SliceV{obj: f.content.obj, pre: f.content.pre, off: tt.Add(f.content.off, off), len: n, cap: n}
+			dst := SliceV{obj: buf.obj, pre: buf.pre, off: buf.off, len: n, cap: n}
+			ex.doCopy(st, dst, src)
+		}
+		short, full := ex.split(st, tt.Slt(n, buf.len))
+		var outs []Outcome
+		if short != nil {
+			outs = append(outs, Outcome{st: short, ret: TupleV{n, ex.newError(short, "EOF")}})
+		}
+		if full != nil {
+			outs = append(outs, Outcome{st: full, ret: TupleV{n, IfaceV{}}})
+		}
+		return outs
+	}
 	I["syscall.Munmap"] = func(ex *Exec, st *State, _ *ssa.CallCommon, a []Value) []Outcome { return ret1(st, IfaceV{}) }
 	I["runtime.SetFinalizer"] = func(ex *Exec, st *State, _ *ssa.CallCommon, a []Value) []Outcome { return ret1(st, nil) }
 	I["golang.org/x/sys/unix.FcntlFlock"] = func(ex *Exec, st *State, _ *ssa.CallCommon, a []Value) []Outcome {
